@@ -80,8 +80,17 @@ func (C16) Generate(r *rand.Rand, tier string, idx int) *drv.Scenario {
 				op.S = []string{pick(r, njFields)}
 			}
 			steps = append(steps, op)
-		case x < 56:
+		case x < 53:
 			steps = append(steps, drv.Op{Op: "njdel", N: int64(pick(r, njIDs))})
+		case x < 56:
+			// a field set and removed again by the same user within one second, then both read paths at once
+			id := pick(r, njIDs)
+			f := pick(r, njFields)
+			u := pick(r, []string{"alice", "bob"})
+			steps = append(steps,
+				drv.Op{Op: "njpost", N: int64(id), U: u, K: "nosleep", J: jsonBody(map[string]interface{}{"bodyid": id, f: njValue(r, f)})},
+				drv.Op{Op: "njpost", N: int64(id), U: u, K: "nosleep", J: jsonBody(map[string]interface{}{"bodyid": id, f: nil})},
+				drv.Op{Op: "njpair"})
 		case x < 58 && r.IntN(3) == 0:
 			// a range read of the head while other clients delete its largest ids
 			steps = append(steps, drv.Op{Op: "njparrange", N: int64(1 + r.IntN(2))}, drv.Op{Op: "njpair"})
@@ -235,7 +244,7 @@ func (c C16) Execute(sc *drv.Scenario, w *drv.World) (*drv.Violation, error) {
 			v.Step = i
 			return v, nil
 		}
-		if op.Op != "njsleep" && op.Op != "njsetup" && (i*7+len(sc.Steps))%5 != 0 {
+		if op.Op != "njsleep" && op.Op != "njsetup" && op.K != "nosleep" && (i*7+len(sc.Steps))%5 != 0 {
 			// the clock usually moves on between operations so that re-stamping is visible; now and then
 			// two operations fall into the same second (equal stamps)
 			if err := w.Sleep(2000); err != nil {
